@@ -218,3 +218,129 @@ func H_C14_index(blackI int) {
 	zzrt.Assert(okx == black, "a field no path mentions")
 	zzrt.Cover("end")
 }
+
+// ---- query semantics against a path-set model ------------------------------------------------------
+
+type zzQStep struct {
+	kind int // 0 field id, 1 list index, 2 string key, 3 int key, 5 '*'
+	n    int
+	s    string
+}
+
+func (p zzQStep) matches(q zzQStep) bool {
+	if p.kind == 5 {
+		return q.kind != 0
+	}
+	if p.kind != q.kind {
+		return false
+	}
+	if p.kind == 2 {
+		return p.s == q.s
+	}
+	return p.n == q.n
+}
+
+type zzQList struct {
+	text  []string
+	steps [][]zzQStep
+}
+
+func zzQLists() []zzQList {
+	f := func(n int) zzQStep { return zzQStep{kind: 0, n: n} }
+	ix := func(n int) zzQStep { return zzQStep{kind: 1, n: n} }
+	sk := func(s string) zzQStep { return zzQStep{kind: 2, s: s} }
+	star := zzQStep{kind: 5}
+	return []zzQList{
+		{[]string{"$.l[*].c"}, [][]zzQStep{{f(3), star, f(70)}}},                       // '*' followed by a deeper path
+		{[]string{"$.l[1].a", "$.l[2]"}, [][]zzQStep{{f(3), ix(1), f(1)}, {f(3), ix(2)}}}, // partial and complete element paths
+		{[]string{"$.ml{*}[0].b"}, [][]zzQStep{{f(300), star, ix(0), f(2)}}},
+		{[]string{"$.sm{\"k\"}.c[1]", "$.in.a"}, [][]zzQStep{{f(5), sk("k"), f(70), ix(1)}, {f(7), f(1)}}},
+		{[]string{"$.im{*}.a", "$.a63.b"}, [][]zzQStep{{f(6), star, f(1)}, {f(63), f(2)}}},
+		{[]string{"$.in", "$.a63.c[*]"}, [][]zzQStep{{f(7)}, {f(63), f(70), star}}},
+	}
+}
+
+// zzQRoutes: query sequences through the type Root; the values of the steps are free.
+func zzQRoute(r int) []zzQStep {
+	qf := func() zzQStep { return zzQStep{kind: 0, n: int(zzrt.Int16("qf"))} }
+	qi := func() zzQStep { return zzQStep{kind: 1, n: zzrt.Int("qi")} }
+	qk := func() zzQStep { return zzQStep{kind: 3, n: zzrt.Int("qk")} }
+	qs := func() zzQStep { return zzQStep{kind: 2, s: zzrt.String("qs", 1)} }
+	fx := func(n int) zzQStep { return zzQStep{kind: 0, n: n} }
+	switch r {
+	case 0:
+		return []zzQStep{fx(3), qi(), qf(), qi()} // l[i].f[j]
+	case 1:
+		return []zzQStep{fx(300), qs(), qi(), qf()} // ml{s}[i].f
+	case 2:
+		return []zzQStep{fx(5), qs(), qf(), qi()} // sm{s}.f[i]
+	case 3:
+		return []zzQStep{fx(7), qf(), qi()} // in.f[i]
+	case 4:
+		return []zzQStep{fx(6), qk(), qf()} // im{k}.f
+	default:
+		return []zzQStep{fx(63), qf(), qi()} // a63.f[i]
+	}
+}
+
+// H_C14_query: Field/Int/Str answer as the set of paths prescribes, level by level, for free query
+// values; white and black list. covered = a complete path ends at or above the node; deeper = a
+// path continues below it.
+func H_C14_query(list, route, blackI int) {
+	black := blackI == 1
+	pl := zzQLists()[list]
+	if black && list == 5 {
+		zzrt.Cover("end") // a path ending in '*' in black-list mode: whether the container itself stays is not stated
+		return
+	}
+	fm, err := Options{BlackListMode: black}.NewFieldMask(zzDesc(), pl.text...)
+	zzrt.Assert(err == nil && fm != nil, "valid paths build a mask")
+	q := zzQRoute(route)
+	cur := fm
+	for k := 1; k <= len(q); k++ {
+		covered, deeper := false, false
+		for _, p := range pl.steps {
+			m := true
+			for i := 0; i < len(p) && i < k; i++ {
+				if !p[i].matches(zzQStepAs(p[i], q[i])) {
+					m = false
+				}
+			}
+			if m && len(p) <= k {
+				covered = true
+			}
+			if m && len(p) > k {
+				deeper = true
+			}
+		}
+		var sub *FieldMask
+		var ex bool
+		switch q[k-1].kind {
+		case 0:
+			sub, ex = cur.Field(int16(q[k-1].n))
+		case 2:
+			sub, ex = cur.Str(q[k-1].s)
+		default:
+			sub, ex = cur.Int(q[k-1].n)
+		}
+		want := covered || deeper
+		if black {
+			want = !covered
+		}
+		zzrt.Assert(ex == want, "query level "+string(rune('0'+k))+" answers as the path set prescribes")
+		if !ex {
+			zzrt.Cover("end")
+			return
+		}
+		cur = sub
+	}
+	zzrt.Cover("end")
+}
+
+// zzQStepAs: an int-key query matches a path step written as list index or int key alike.
+func zzQStepAs(p, q zzQStep) zzQStep {
+	if (p.kind == 1 || p.kind == 3) && (q.kind == 1 || q.kind == 3) {
+		q.kind = p.kind
+	}
+	return q
+}
